@@ -44,6 +44,7 @@ def jobs(tier, seed):
     for i, parts in enumerate(PARTS):
         out.append({'name': 'glue:' + '+'.join(m for m, _ in parts) + ('/utf-8' if parts[0][1] else ''), 'kind': 'glue', 'parts': parts, 'cost': 40})
     out.append({'name': 'wrappers', 'kind': 'wrappers', 'cost': 5})
+    out.append({'name': 'boost-call-histories', 'kind': 'hist', 'cost': 30})
     shapes = [(T.M2, 'L'), (T.M4, 'L'), (T.M4, 'M'), (1, 'L'), (1, 'M'), (2, 'Q'), (3, 'L'), (5, 'M')]
     if tier == 'thorough':
         shapes += [(T.M3, 'L'), (4, 'L'), (6, 'Q'), (7, 'L'), (9, 'M'), (10, 'L')]
@@ -58,6 +59,8 @@ def run_job(spec):
         wrappers.check_wrappers(res, common.sx())
         res.sample({'case': 'wrappers', 'symbolic': 'opaque sentinel arguments (parametricity)', 'obligation': 'boost_error, error, version, ... reach encoder.encode unchanged'})
         return res.as_dict()
+    if spec['kind'] == 'hist':
+        return job_hist(res)
     L_ = common.sx(('consts', 'encoder'))
     if spec['kind'] == 'boost':
         return job_boost(res, L_, spec['v'])
@@ -115,6 +118,68 @@ def job_boost(res, L_, v):
                             bt.holds('boost==highest-fitting-ISO-level', label, gt == want)
                         bt.run(to_input)
     res.sample({'case': res.name, 'symbolic': 'L (payload bits), unbounded', 'obligation': 'boost_error_level == highest ISO level >= request whose capacity >= overhead + L'})
+    return res.as_dict()
+
+
+def hist_cases():
+    """pairs of calls that differ only in what a careless cache key would leave out (eci flag, byte encoding, SA flag), with
+    payload lengths on both sides of every level boundary of the version"""
+    out = []
+    for v in (T.M2, T.M4, 1, 2, 5, 9, 10, 26, 27, 40):
+        for req in ('L', 'M'):
+            if req not in T.levels_of(v):
+                continue
+            for lv in T.levels_of(v):
+                if lv is None or T.LEVEL_ORDER[lv] <= T.LEVEL_ORDER[req]:
+                    continue
+                base = T.data_bits(v, lv) - S.needed_bits([('byte', None)], v, 0, False, False) if T.mode_supported('byte', v) else None
+                if base is None:
+                    continue
+                for L in sorted({base - 16, base - 8, base, base + 8} | {base - 12, base - 4, base + 4}):
+                    if L > 0:
+                        out.append((v, req, L))
+    return out
+
+
+def job_hist(res):
+    """decided by evaluation on the unmodified library: boost_error_level must give the oracle level whatever was called before"""
+    import segno.encoder as enc
+    from segno import consts
+
+    class Bits:
+        def __init__(self, n):
+            self.n = n
+
+        def __len__(self):
+            return self.n
+
+    def segs(parts, L):
+        sg = enc.Segments()
+        for i, (mode, encoding) in enumerate(parts):
+            sg.segments.append(enc._Segment(Bits(L if i == 0 else 0), 1, S.mode_const(consts, mode), (encoding or consts.DEFAULT_BYTE_ENCODING) if mode == 'byte' else None))
+            sg.modes.append(S.mode_const(consts, mode))
+        sg.bit_length = L
+        return sg
+    variants = [([('byte', None)], False, False), ([('byte', 'utf-8')], True, False), ([('byte', 'utf-8')], False, False), ([('byte', None)], False, True)]
+    for v, req, L in hist_cases():
+        for first in variants:
+            for second in variants:
+                if first is second or v < 1 and (first[1] or first[2] or second[1] or second[2]):
+                    continue
+                for parts, eci, sa in (first, second):
+                    try:
+                        got = enc.boost_error_level(v, S.level_const(consts, req), segs(parts, L), eci, is_sa=sa)
+                    except Exception as e:
+                        got = repr(e)
+                need_fits = S.needed_bits(second[0], v, L, second[1], second[2]) <= T.data_bits(v, req)
+                if not need_fits:
+                    continue
+                want = S.level_const(consts, S.oracle_boost_concrete(second[0], v, req, second[1], second[2], L))
+                res.concrete('boost level independent of earlier calls', got == want,
+                             lambda v=v, req=req, L=L, first=first, second=second, got=got, want=want: res.violation(
+                                 'boost-history', f'{T.version_name(v)} request {req} payload bits {L}: after {first} the call {second} gives {got}, oracle {want}',
+                                 {'fn': 'boost-hist', 'v': v, 'error': req, 'L': L, 'first': [first[0], first[1], first[2]], 'second': [second[0], second[1], second[2]]}))
+    res.sample({'case': 'boost call histories', 'cases': len(hist_cases()), 'note': 'concrete (decided by evaluation)'})
     return res.as_dict()
 
 
@@ -245,6 +310,15 @@ def replay(viol):
             segs.modes.append(S.mode_const(consts, mode))
         segs.bit_length = L
         return segs
+    if inp['fn'] == 'boost-hist':
+        v, req, L = inp['v'], inp['error'], inp['L']
+        got = None
+        for ps, eci, sa in (inp['first'], inp['second']):
+            parts = [tuple(x) for x in ps]
+            got = enc.boost_error_level(v, S.level_const(consts, req), segments(L), eci, is_sa=sa)
+        parts = [tuple(x) for x in inp['second'][0]]
+        want = S.level_const(consts, S.oracle_boost_concrete(parts, v, req, inp['second'][1], inp['second'][2], L))
+        return got != want, f'second call gives level {got}, oracle {want}'
     if inp['fn'] == 'boost':
         v, error, eci, is_sa, L = inp['v'], inp['error'], inp['eci'], inp['is_sa'], inp['L']
         saved = parts
